@@ -98,6 +98,40 @@ func init() {
 		// property level only: Equal, hashes equal or not, boards identical or not (raw hash values are the `hash`/`mhash` ops)
 		return fmt.Sprintf("eq=%d hsame=%d same=%d", b2i(pa.Equal(pb)), b2i(pa.Hash() == pb.Hash()), b2i(absDump(pa) == absDump(pb) && pa.ToMove() == pb.ToMove()))
 	}
+	// transpre: route A through fresh storage, route B through two caller-supplied buffers that held another position
+	// of the same size before (the property: "fresh or caller-supplied storage"); every intermediate of route B is also
+	// compared with the same prefix played into fresh storage
+	opTable["transpre"] = func(s *Session, a []string) string {
+		p := decPos(a[0])
+		dirt := decPos(a[3])
+		bufs := dirtyBuffers(p, dirt)
+		pa, ok := applySeq(p, a[1])
+		if !ok {
+			return "errA"
+		}
+		cur, ref := p, p
+		pre := 1
+		if a[2] != "-" {
+			for i, mt := range strings.Split(a[2], ";") {
+				m := decMove(mt)
+				_ = cur.Hash()
+				n, err := cur.MovePreallocated(m, bufs[i%2])
+				if err != nil {
+					return "errB"
+				}
+				r, err := ref.Move(m)
+				if err != nil {
+					return "errB-fresh"
+				}
+				if !n.Equal(r) || !r.Equal(n) || n.Hash() != r.Hash() || absDump(n) != absDump(r) {
+					pre = 0
+				}
+				cur, ref = n, r
+			}
+		}
+		pb := cur
+		return fmt.Sprintf("eq=%d hsame=%d same=%d pre=%d", b2i(pa.Equal(pb) && pb.Equal(pa)), b2i(pa.Hash() == pb.Hash()), b2i(absDump(pa) == absDump(pb) && pa.ToMove() == pb.ToMove()), pre)
+	}
 	opTable["rebuild"] = func(s *Session, a []string) string {
 		p := decPos(a[0])
 		q, err := rebuild(p)
@@ -106,6 +140,25 @@ func init() {
 		}
 		return fmt.Sprintf("eq=%d hsame=%d", b2i(p.Equal(q)), b2i(p.Hash() == q.Hash()))
 	}
+}
+
+// dirtyBuffers returns two storage objects for p's board size that have already been used for `dirt` (when it has the
+// same size) and for each other's successors, the way a search stack reuses its frames.
+func dirtyBuffers(p, dirt *tak.Position) [2]*tak.Position {
+	var bufs [2]*tak.Position
+	for i := range bufs {
+		bufs[i] = tak.Alloc(p.Size())
+		if dirt.Size() == p.Size() {
+			if n, err := dirt.MovePreallocated(tak.Move{Type: tak.Pass}, bufs[i]); err == nil {
+				// play on inside the buffer so that it has seen slides as well
+				ms := legalMoves(n)
+				if len(ms) > 0 {
+					n.MovePreallocated(ms[(i*7)%len(ms)], bufs[i])
+				}
+			}
+		}
+	}
+	return bufs
 }
 
 // perturb returns a copy of the raw position with one piece changed (a buried colour, a top kind, a top colour) or the ply bumped.
@@ -146,6 +199,17 @@ func perturb(r *RNG, raw tak.VerifRaw) tak.VerifRaw {
 		}
 	}
 	return q
+}
+
+// dirtFor draws a position of p's size with stacks (what a reused buffer held before)
+func dirtFor(r *RNG, p *tak.Position) *tak.Position {
+	for try := 0; try < 4; try++ {
+		d := constructed(r, p.Size())
+		if d != nil {
+			return d
+		}
+	}
+	return p
 }
 
 func genC08(c *Ctx) {
@@ -197,6 +261,12 @@ func genC08(c *Ctx) {
 				b := bs[c.R.Intn(len(bs))]
 				out := c.Emit("trans " + tok + " " + encSeq([]tak.Move{a, x, b}) + " " + encSeq([]tak.Move{b, x, a}))
 				c.Count("trans." + strings.SplitN(out, " ", 2)[0])
+				// the same two routes, route B in reused caller-supplied storage; and one route against itself
+				dirt := dirtFor(c.R, p)
+				dtok := encPos(dirt)
+				c.Emit("transpre " + tok + " " + encSeq([]tak.Move{a, x, b}) + " " + encSeq([]tak.Move{b, x, a}) + " " + dtok)
+				c.Emit("transpre " + tok + " " + encSeq([]tak.Move{a, x, b}) + " " + encSeq([]tak.Move{a, x, b}) + " " + dtok)
+				c.Count("transpre")
 			}
 			// slide out and back (two-step cycles with the opponent passing is impossible; use place/slide commutations instead)
 		}
